@@ -14,7 +14,7 @@ func init() {
 	register(&propInfo{
 		ID:          "C20",
 		Run:         runC20,
-		MinObl:      40,
+		MinObl:      54,
 		Explanation: "Decided: R1 in every exported (*Fosite).Write* function (unexported helpers traversed) every emission on the ResponseWriter (Write, WriteHeader, http.Error, encoders/templates/redirect helpers/response-mode handlers receiving the writer) is preceded on all paths by Header().Set(\"Cache-Control\",\"no-store\") and Set(\"Pragma\",\"no-cache\") on the same writer with no later header write that could override them (non-constant key, or the same key with another value); R2 in the methods of RFC6749Error every use of DebugField as a returned value or call/store argument is control-dependent on exposeDebug==true (Debug() accessor exempt), WithExposeDebug never receives a constant true in the module and the Write* functions never call Debug(); R3 the form-post templates (package default and configured) are *html/template.Template; R4 storage taint — for every storage persistence/lookup call in every handler and endpoint function string arguments never contain a raw credential (form values code/refresh_token/device_code/token/access_token/client_secret/password/code_verifier/client_assertion, the code/token results of Generate*/GetCode/GetAccessToken, the raw token parameter of IntrospectToken/RevokeToken) outside a *Signature call, and persisted Requesters are Sanitize(·,W) with a constant W disjoint from the endpoint's secret keys, the operator's whitelist, or have the secret keys deleted from their form on all paths before the call (Authenticate(username,password) exempt by name). R3 also: no function of the module converts a value to one of html/template's trusted content types (HTML, URL, JS, ...); R5 every implementation of Requester.Sanitize copies a form key into the sanitized request only if the key is in the set built from its whitelist argument and the fixed default keys; R6 the 21 error values the RFCs define carry exactly the RFC error code; R7 GetDescription returns the quote-replaced complete text (nothing appended after the replacement). NOT decided: well-formedness of emitted bytes beyond that, i18n catalog content, escaping inside html/template.",
 	})
 }
